@@ -173,11 +173,12 @@ Definition add_ack (s : store) (op cid : N) : store * bool :=
   end.
 
 (* ---------- the observations of engine mode c14 ---------- *)
-(* per operator: wanted checkpoint id, the entries of its `checkpoints` file when the artifact was written,
-   the file names found in the artifact directory, the file names in the working directory after the restore copy *)
-Definition op_obs := (N * list ckentry * list bytes * list bytes)%type.
+(* per operator of the savepoint's job checkpoint: wanted DKV checkpoint id, URI of its `checkpoints` file, the entries
+   of that file when the artifact was written (file URIs).  artifact = original URIs of all DKV files found in the
+   savepoint directory; after = those of them present in the working storage after the wipe and the restore copy. *)
+Definition op_obs := (N * bytes * list ckentry)%type.
 Inductive sp_case :=
-| SpFiles (ops : list op_obs) (restored : bool)
+| SpFiles (ops : list op_obs) (artifact after : list bytes) (restored : bool)
 | SpFold (pending_before : bool) (pending_id : N) (counter_before : N) (ret : sres) (counter_after : N) (still_pending_id : N).
 
 Fixpoint ins_bytes (b : bytes) (l : list bytes) : list bytes :=
@@ -203,19 +204,23 @@ Definition sres_eqb (a b : sres) : bool :=
 
 Definition check_sp (c : sp_case) : list N :=
   match c with
-  | SpFiles ops restored =>
-      flat_map (fun o => match o with (cid, entries, artifact, after) =>
-         (* model: the artifact holds exactly the files list_files names, plus the checkpoints file *)
-         (match list_files true entries cid with
-          | Some files => if names_eqb (sort_names artifact) (sort_names (files ++ [ck_name])) then [] else [30]
-          | None => [31]
-          end) ++
-         (* spec: closed - every file restoring checkpoint cid reads is in the artifact and back in place *)
-         (match find (fun e => fst e =? cid) entries with
-          | Some e => (if subset_names (ck_name :: snd e) artifact then [] else [130]) ++
-                      (if subset_names (ck_name :: snd e) after then [] else [131])
-          | None => [132]
-          end) end) ops ++
+  | SpFiles ops artifact after restored =>
+      (* model: the artifact holds exactly, for every operator, the files list_files names plus its checkpoints file *)
+      (match fold_right (fun o acc => match o, acc with
+                           | (cid, ckf, entries), Some r =>
+                               match list_files true entries cid with Some fs => Some (fs ++ [ckf] ++ r) | None => None end
+                           | _, None => None end) (Some []) ops with
+       | Some expect => if names_eqb (sort_names artifact) (sort_names expect) then [] else [30]
+       | None => [31]
+       end) ++
+      (* spec: closed - every file that restoring checkpoint cid of every operator reads is in the artifact, and is
+         back in place after the working storage was wiped and the savepoint restored *)
+      flat_map (fun o => match o with (cid, ckf, entries) =>
+         match find (fun e => fst e =? cid) entries with
+         | Some e => (if subset_names (ckf :: snd e) artifact then [] else [130]) ++
+                     (if subset_names (ckf :: snd e) after then [] else [131])
+         | None => [132]
+         end end) ops ++
       (if restored then [] else [133])
   | SpFold pending_before pid counter_before ret counter_after still =>
       let s := mkSt counter_before (if pending_before then Some (mkP pid false [0] []) else None) [] in
